@@ -501,13 +501,26 @@ def run(ctx):
               traces_validated_against_impl=int(cnt.get("rpc_paths_conform", 0)) + int(cnt.get("shrex_paths_conform", 0)))
     if not summ:
         return
-    need = {"rpc_steps": 1000, "rpc_admitted": 100, "rpc_429": 50, "rpc_503": 50, "rpc_finish_returned": 50,
-            "rpc_finish_panicked": 50, "rpc_finish_cancelled": 50, "rpc_ws_admitted": 50, "rpc_evictions_seen": 20,
-            "rpc_ticks": 50, "rpc_refill_admissions": 10, "rpc_extract_cases": 16}
-    if only == "shrex":
-        need = {}
+    need_rpc = {"rpc_steps": 1000, "rpc_admitted": 100, "rpc_429": 50, "rpc_503": 50, "rpc_finish_returned": 50,
+                "rpc_finish_panicked": 50, "rpc_finish_cancelled": 50, "rpc_ws_admitted": 50, "rpc_evictions_seen": 20,
+                "rpc_ticks": 50, "rpc_refill_admissions": 10, "rpc_extract_cases": 16, "rpc_real_stack_directed_ok": 1}
+    if not summ.get("rpc_real_network_skipped"):
+        need_rpc.update({"rpc_real_ws_closed_slot_back": 1, "rpc_real_disconnect_slot_back": 1})
+    else:
+        ctx.note("real-network phase skipped (no loopback TCP?): %s" % summ["rpc_real_network_skipped"])
+    need_sh = {"shrex_steps": 1000, "shrex_refused-protocol": 10, "shrex_refused-service": 10, "shrex_refused-memory": 10,
+               "shrex_rate-limited": 10, "shrex_finish_served": 10, "shrex_finish_panicked": 10, "shrex_closed": 10,
+               "shrex_refill_admissions": 5, "shrex_addr_cases": 10, "shrex_addr_pairs": 10, "shrex_directed_runs_ok": 5,
+               "shrex_limit_table_checks": 5}
+    need = dict(need_rpc if only != "shrex" else {})
+    need.update(need_sh if only != "rpc" else {})
+    if rep.get("violations"):
+        need = {}      # a violation stops the driver early
     low = {k: cnt.get(k, 0) for k, v in need.items() if cnt.get(k, 0) < v}
     if low:
         ctx.inconclusive("vacuity: the driver did not exercise enough of: %s" % low)
+    for k in ("shrex_limit_table", "shrex_outbound_probe", "shrex_max_response_bytes"):
+        if summ.get(k) is not None:
+            ctx.cover(**{k: summ[k]})
     if cnt.get("rpc_paths_conform", 0) < cnt.get("rpc_paths", 0) and not rep.get("violations") and not rep.get("inconclusive"):
         ctx.inconclusive("some paths did not conform but no reason was recorded")
